@@ -1,5 +1,6 @@
 """C01 JWS verification is sound."""
 import collections
+import hashlib
 import json
 import os
 import random
@@ -195,6 +196,67 @@ def gen(tier, seed, bdir):
     return hm, pk, dict(dist)
 
 
+def independent_tokens(ctx, dist):
+    """tokens signed OUTSIDE the library (python ECDSA over the four curves, PKCS#1 v1.5 with the RSA key's d): the
+    genuine one verifies, the same construction over another digest does not -- one-shot and streaming"""
+    import pyec
+    rep = ctx["rep"]
+    rnd = random.Random(ctx["seed"] + 3)
+    keys = G.standard_keys(ctx["bdir"])
+    HN = {"ES256": "sha256", "ES384": "sha384", "ES512": "sha512", "ES256K": "sha256", "RS256": "sha256", "RS384": "sha384", "RS512": "sha512"}
+    cases, want, what = [], [], []
+    for alg, hn in HN.items():
+        k = keys.get(G.SIGN_KEY_FOR[alg])
+        if not k:
+            continue
+        for where in ("protected", "header"):
+            for payload in (b"", b"made outside the library " + alg.encode()):
+                prot = G.b64(G.dumps({"alg": alg}).encode()) if where == "protected" else ""
+                pay = G.b64(payload)
+                msg = (prot + "." + pay).encode()
+                for h2 in sorted(set([hn, "sha1", "sha256", "sha384", "sha512"])):
+                    if alg.startswith("ES"):
+                        cv = pyec.CURVES[k["crv"]]
+                        d = int.from_bytes(G.unb64(k["d"]), "big")
+                        sg = pyec.ecdsa_sign(cv, d, hashlib.new(h2, msg).digest(), rnd.randrange(1, cv["n"]))
+                    else:
+                        if h2 == "sha1":
+                            continue
+                        rk = {m: int.from_bytes(G.unb64(k[m]), "big") for m in ("n", "d")}
+                        sg = pyec.rsa_pkcs1_sign(rk, hn, msg) if h2 == hn else None
+                        if sg is None:
+                            # the right DigestInfo over the wrong digest
+                            t = pyec.DI[hn] + hashlib.new(h2, msg).digest()[:hashlib.new(hn).digest_size].ljust(hashlib.new(hn).digest_size, b"\0")
+                            kl = (rk["n"].bit_length() + 7) // 8
+                            em = b"\x00\x01" + b"\xff" * (kl - len(t) - 3) + b"\x00" + t
+                            sg = pow(int.from_bytes(em, "big"), rk["d"], rk["n"]).to_bytes(kl, "big")
+                    tok = {"payload": pay, "signature": G.b64(sg)}
+                    if where == "protected":
+                        tok["protected"] = prot
+                    else:
+                        tok["header"] = {"alg": alg}
+                    pub = G.pub_of(k)
+                    w = "T" if h2 == hn else "F"
+                    cases.append("jwsver\t%s\t-\t%s\t0" % (G.dumps(tok), G.dumps(pub)))
+                    want.append(w)
+                    what.append((alg, h2))
+                    text = pay.encode()
+                    cases.append("jwsverio\t%s\t-\t%s\t0\t%s\t%s" % (G.dumps(tok), G.dumps(pub), ("1,%d" % (len(text) - 1)) if len(text) > 1 else "-", text.hex() or "-"))
+                    want.append(w)
+                    what.append((alg, h2))
+    outs = G.harness(ctx["bdir"], cases)
+    for c, o, w, (alg, h2) in zip(cases, outs, want, what):
+        got = "T" if o.endswith("T") and not o.startswith("CRASH") else "F"
+        if o.startswith("CRASH"):
+            rep.violation("crash:" + o[:80], "crash or sanitizer report: " + o, {"case": c[:3000]})
+        elif got != w:
+            rep.violation("independent-token:%s:%s" % ("rejected" if w == "T" else "accepted", alg),
+                          "a %s token signed outside the library over %s(signing input) is %s" % (alg, h2, "rejected (it is the genuine construction)" if w == "T" else "accepted (the algorithm demands another digest)"),
+                          {"case": c[:3000], "implementation": o})
+    dist["tokens signed outside the library (python ECDSA / PKCS#1 v1.5), right and wrong digest"] = len(cases)
+    return len(cases)
+
+
 def correspond(ctx):
     rep = ctx["rep"]
     hm, pk, dist = gen(ctx["tier"], ctx["seed"], ctx["bdir"])
@@ -230,7 +292,27 @@ def correspond(ctx):
     rnd = random.Random(ctx["seed"])
     sample = [i for i in range(len(pkc)) if pkc[i].split("\t")[2] == "-"]
     rnd.shuffle(sample)
-    sample = sorted(sample[:24 if ctx["tier"] == "quick" else 200])
+
+    def alg_of(case):
+        try:
+            t = json.loads(case.split("\t")[1])
+            sg = t["signatures"][0] if "signatures" in t else t
+            h = dict(sg.get("header") or {})
+            if isinstance(sg.get("protected"), str):
+                h.update(json.loads(G.unb64(sg["protected"])))
+            return h.get("alg")
+        except Exception:
+            return None
+    # every algorithm is represented on the model by tokens the construction expects to VERIFY (two each) ...
+    strat, seen = [], collections.Counter()
+    for i in sample:
+        a = alg_of(pkc[i])
+        if a and expected.get(pkc[i], "").endswith("T") and seen[a] < 2:
+            seen[a] += 1
+            strat.append(i)
+    # ... and the rest of the budget is a random sample
+    budget = 24 if ctx["tier"] == "quick" else 200
+    sample = sorted(set(strat + sample[:budget]))
     lines = []
     for i in sample:
         f = pkc[i].split("\t")
@@ -248,7 +330,8 @@ def correspond(ctx):
             if impl[i] != want:
                 dis += 1
                 st["first_disagreements"].append({"case": pkc[i][:1500], "implementation": impl[i], "model": want})
-    st["evaluations"] += len(pkc)
+    nind = independent_tokens(ctx, st["dist"])
+    st["evaluations"] += len(pkc) + nind
     st["distinct_nontrivial"] += len(set(pkc))
     st["disagreements"] += dis
     st["pk_cases_model_checked"] = len(sample)
